@@ -13,7 +13,7 @@ const varsValGo = "v2/pkg/variablesvalidation/variablesvalidation.go"
 
 func init() {
 	Registry["C06"] = Spec{
-		Pkgs: map[string][]string{"v2": {"varsvalidation"}, "execution": {"engine"}},
+		Pkgs: map[string][]string{"v2": {"varsvalidation", "astnorm"}, "execution": {"engine"}},
 		Run:  runC06,
 		Explanation: "Decides the structural half of 'rejections never echo variable content when that is disabled, every input kind is checked, and the gate is on the path': in package variablesvalidation every piece of request-variable content (MarshalTo / GetStringBytes / String of a JSON value, followed through local variables and helper parameters) reaches an error message only inside a call of a sanitiser — a function that branches on DisableExposingVariablesContent; " +
 			"the named-type dispatch covers the three input kinds and the five built-in scalars and the error renderer covers the same sets; list traversal descends into every element unconditionally; the validator's error slot is re-initialised on every Validate call before the walk; the engine plans only after variable validation succeeded (or there was no JSON object to validate). " +
@@ -45,6 +45,8 @@ func init() {
 				Old: "\t\t\tif jsonValue == nil && v.definition.InputValueDefinitionHasDefaultValue(inputFieldRef) {", New: "\t\t\tif v.definition.InputValueDefinitionHasDefaultValue(inputFieldRef) {"},
 			{Name: "Int arm tests only the JSON kind again (reverts the F30 fix)", File: varsValGo, Rule: "C06-R8", Key: "traverseNamedTypeNode/int-arm-inspects-the-number",
 				Old: "\t\t\tif jsonValue.Type() != astjson.TypeNumber || !numberIsInt32(jsonValue) {", New: "\t\t\tif jsonValue.Type() != astjson.TypeNumber {"},
+			{Name: "variable default overwrites an explicit null (seeded change C06-23)", File: "v2/pkg/astnormalization/variables_default_value_extraction.go", Rule: "C06-R9", Key: "EnterVariableDefinition/default-written-only-when-absent",
+				Old: "\t_, _, _, err := jsonparser.Get(v.operation.Input.Variables, variableName)\n\tif err == nil {\n\t\treturn\n\t}\n", New: "\t_, dataType, _, err := jsonparser.Get(v.operation.Input.Variables, variableName)\n\tif err == nil && dataType != jsonparser.Null {\n\t\treturn\n\t}\n"},
 			{Name: "validator error slot not reset between requests", File: varsValGo, Rule: "C06-R4", Key: "err-reset-before-walk",
 				Old: "\tv.visitor.variables, v.visitor.err = astjson.ParseBytes(variables)\n\tif v.visitor.err != nil {\n\t\treturn v.visitor.err\n\t}\n", New: "\tparsed, perr := astjson.ParseBytes(variables)\n\tif perr != nil {\n\t\treturn perr\n\t}\n\tv.visitor.variables = parsed\n"},
 			{Name: "null list items skipped before descending", File: varsValGo, Rule: "C06-R5", Key: "traverseFieldDefinitionType",
@@ -62,6 +64,7 @@ func runC06(r *fw.Run) {
 	}
 	info := pk.TypesInfo
 	defer c06IntArmInspectsContent(r)
+	defer c06DefaultOnlyWhenAbsent(r)
 
 	// ---- R1 redaction --------------------------------------------------------------------------
 	r.Rule("C06-R1", "variable content (MarshalTo / GetStringBytes / String / GetArray items … of a JSON value, through locals and helper parameters) reaches an error message only inside a call of a sanitiser (a function branching on DisableExposingVariablesContent)")
@@ -666,4 +669,50 @@ func c06IntArmInspectsContent(r *fw.Run) {
 		})
 	}
 	r.Expect("C06-R8", "Int arms of a validating scalar dispatch", n, 1)
+}
+
+// c06DefaultOnlyWhenAbsent (R9): "defaults for absent values" — the normalizer copies a variable's default value into the
+// request's variables. That write is legitimate only on the edge where the lookup of the variable in the request failed
+// (the variable is absent); an explicit null is a provided value and must stay (it is invalid for T!, and for a nullable
+// T it means null, not the default). The rule requires every write of Input.Variables in a function that reads
+// VariableDefinitionDefaultValue to be dominated by the failure edge (err != nil) of the jsonparser.Get lookup.
+func c06DefaultOnlyWhenAbsent(r *fw.Run) {
+	p := r.Prog
+	r.Rule("C06-R9", "the normalizer writes a variable's default into the request's variables only on the failure edge of the lookup of that variable (absent), never for a value that is present (an explicit null stays)")
+	if p.Pkg("astnorm") == nil {
+		r.Error("C06-R9: package astnormalization not loaded")
+		return
+	}
+	const jp = "github.com/buger/jsonparser"
+	n := 0
+	for _, fi := range p.Funcs("astnorm") {
+		info := fi.Info()
+		readsDefault := false
+		fw.WalkAll(fi.Decl.Body, func(nd ast.Node) bool {
+			if c, ok := nd.(*ast.CallExpr); ok && fw.CallIs(info, c, "ast", "Document.VariableDefinitionDefaultValue") {
+				readsDefault = true
+			}
+			return true
+		})
+		if !readsDefault {
+			continue
+		}
+		g := fw.NewGuards(info, fw.GuardSpec{Name: "absent", Sticky: true, Match: fw.AtomVarFromCall(fi, "NonNil", jp, "Get", 3)})
+		in := fw.NewInterp(fi)
+		in.H = fw.Hooks{Cond: g.Cond, Node: func(nd ast.Node, st *fw.State) {
+			g.Node(nd, st)
+			if !in.Final() {
+				return
+			}
+			for _, t := range fw.WriteTargets(info, nd) {
+				if fw.IsFieldSel(info, t, "ast", "Input", "Variables") {
+					n++
+					r.Check(g.Has(st, "absent"), "C06-R9", fi.Name()+"/default-written-only-when-absent#"+itoa(n), p.Pos(nd.Pos()), "the write of Input.Variables in "+fi.Name()+" (which injects the variable's default) is reached only when the lookup of the variable failed",
+						"the default value is written although the request provides the variable: an explicit null is replaced by the default — `$v: Int! = 5` with {\"v\":null} is accepted, and a nullable variable silently changes from null to its default")
+				}
+			}
+		}}
+		in.Run(nil)
+	}
+	r.Expect("C06-R9", "writes of Input.Variables that inject a variable default", n, 1)
 }
